@@ -3,6 +3,7 @@ Observation helpers for program-unit objects (used by C17, C18): scope trees,
 symbol-table dumps, scope-chain checks.  Everything here only *reads* Loki objects.
 """
 # pylint: disable=import-outside-toplevel,broad-except
+from vlib.core import CaseTimeout
 
 
 def _imports():
@@ -73,6 +74,8 @@ def scope_tree(obj, prefix=''):
 def expr_str(v):
     try:
         return str(v)
+    except CaseTimeout:
+        raise
     except Exception as e:
         return f'<unprintable {type(e).__name__}>'
 
@@ -102,6 +105,8 @@ def attr_dump(attrs, own=None):
         if isinstance(v, ProcedureType):
             try:
                 proc = v.procedure
+            except CaseTimeout:
+                raise
             except Exception as e:
                 proc = None
                 return f'ProcedureType({str(v.name).lower()}; broken:{type(e).__name__})'
@@ -276,6 +281,8 @@ def scope_chain_problems(obj, foreign=None, limit=5):
             try:
                 t = v.type
                 ref = sc.symbol_attrs.lookup(v.name)
+            except CaseTimeout:
+                raise
             except Exception as e:
                 problems.append(('type-lookup-exception', f'{v}: {type(e).__name__}: {e}'))
                 continue
@@ -315,6 +322,8 @@ def link_problems(obj, foreign, limit=5):
             elif isinstance(dt, ProcedureType):
                 try:
                     tgt = dt.procedure
+                except CaseTimeout:
+                    raise
                 except Exception:
                     tgt = None
             if tgt is not None and tgt is not L['BasicType'].DEFERRED and id(tgt) in foreign and id(tgt) not in outer:
